@@ -4,9 +4,10 @@ import "fmt"
 
 // sentences of the property statements that no obligation decides (DESIGN.md section 10)
 var notDecided = map[string][]string{
-	"C01": {"coins sent to an escrow address by third parties (excluded by the statement, A2)"},
 	"C02": {"coins sent to an escrow address by third parties (excluded by the statement, A2)"},
-	"C03": {"that the order book built by types.BidsByPrice is a regrouping of the stored bids (assumed contract, BOUNDED conformance test)", "refunds of a batch settlement are non-negative (trusted-ensures of CalculateBatchAllocation)"},
+	"C03": {"that the order book built by types.BidsByPrice is a regrouping of the stored bids (assumed contract, BOUNDED conformance test)", "refunds of a batch settlement are non-negative (trusted-ensures of CalculateBatchAllocation; BOUNDED conformance test under C01/C04)"},
+	"C01": {"coins sent to an escrow address by third parties (excluded by the statement, A2)", "refunds of a batch settlement are non-negative (trusted-ensures of CalculateBatchAllocation, BOUNDED conformance test)"},
+	"C04": {"refunds of a batch settlement are non-negative, i.e. nobody pays more than they reserved (trusted-ensures of CalculateBatchAllocation, BOUNDED conformance test)"},
 	"C07": {"extreme prices or amounts beyond mathematical integers: 256/315-bit overflow panics of cosmossdk.io/math (A3)"},
 	"C13": {"the exact-rational reading of the extension rule inside the 10^-18 rounding band; the rule is proved as the code computes it"},
 	"C14": {"determinism of the SDK, CometBFT and protobuf layers (A7)"},
